@@ -23,22 +23,35 @@ ASSUMPTIONS = ['exact arithmetic', 'the steady-state / phi=gamma/beta corollarie
 
 
 def jobs(tier):
-    return [(c, tier) for c in MESH_CLASSES]
+    out = [(c, tier) for c in MESH_CLASSES]
+    if tier == 'quick':
+        from ..model import DIM
+        for c in MESH_CLASSES:
+            for sz in F.QUICK_SMALL_SIZES[DIM[c]]:
+                out.append((c, tier, sz))
+    if tier != 'quick':
+        from ..model import DIM
+        for c in MESH_CLASSES:
+            for sz in F.SMALL_SIZES[DIM[c]]:
+                out.append((c, tier, sz))
+    return out
 
 
 def job(args):
-    cls, tier = args
+    cls, tier = args[0], args[1]
+    sizes = args[2] if len(args) > 2 else None
     sm = SourceModel()
-    w = World(sm, cls)
+    w = World(sm, cls, sizes=sizes)
     obs, samples, units = [], [], set()
+    szt = f" sizes={sizes}" if sizes else ''
 
     def ob(rule, construct, ok, detail='', loc=''):
-        obs.append(dict(rule=rule, construct=construct, ok=bool(ok), detail=str(detail)[:1500], loc=loc, nontrivial=True))
+        obs.append(dict(rule=rule, construct=construct, ok=bool(ok), detail=(str(detail) + szt)[:1500], loc=loc, nontrivial=True))
     D = w.face_variable('D')
     u = w.face_variable('u')
     phi = w.cell_variable('phi')
     cells = F.cell_classes(w, tier, mode='axes' if tier == 'quick' else 'product')
-    if w.dim == 3 and tier != 'quick':
+    if w.dim == 3 and tier != 'quick' and w.symbolic:
         cells = F.cell_classes(w, 'quick', mode='product')
     divu = w.call('calculus', 'divergenceTerm', u)
     units.add('calculus.divergenceTerm')
